@@ -159,6 +159,30 @@ def handleGlue (id : Nat) (hdr body : List Sexp) : String :=
     | _, _, _ => verdict id (some "unparsable glue header") "ok" "ok"
   | _, _ => verdict id (some "unparsable glue case") "ok" "ok"
 
+def retrieval? : Sexp → Option Retrieval
+  | .list [.atom "direct"] => some .direct
+  | .list [.atom "via", a] => (await? a).map .viaTask
+  | _ => none
+
+def retrievals? : Sexp → Option (List Retrieval)
+  | .list (.atom "again" :: rs) => rs.mapM retrieval?
+  | _ => none
+
+/-- a chain of at least one task whose result is asked again by later consumers (`again`) -/
+def handleAgain (id : Nat) (hdr body : List Sexp) : String :=
+  match hdr, body.mapM event? with
+  | [b, r, ls, ag], some impl =>
+    match bottom? b, rule? r, levels? ls, retrievals? ag with
+    | some bottom, some rule, some levels, some rs =>
+      let model := runTopAgain rule bottom levels rs
+      let corr := firstDiffE model impl
+      let spec := againClause bottom levels rs impl
+      let spec := if spec == "stack-foreign-entry-sync" && corr.isSome
+        then "stack-foreign-entry-sync-and-model-differs" else spec
+      verdict id corr spec (againClause bottom levels rs model)
+    | _, _, _, _ => verdict id (some "unparsable again header") "ok" "ok"
+  | _, _ => verdict id (some "unparsable again case") "ok" "ok"
+
 /-! ### repr -/
 
 def outc? : Sexp → Option (Option Outc)
@@ -315,6 +339,7 @@ def handle (id : Nat) (hdr : List Sexp) (body : List Sexp) : String :=
   match hdr with
   | .atom "filter" :: rest => handleFilter id rest body
   | .atom "glue" :: rest => handleGlue id rest body
+  | .atom "again" :: rest => handleAgain id rest body
   | .atom "repr" :: rest => handleRepr id rest body
   | _ => verdict id (some "unknown kind of debug case") "ok" "ok"
 
